@@ -681,7 +681,9 @@ func ruleTextIdentity(p *Prog, l *Ledger, tier string) {
 			l.Prove(rule, "Subtitles.Unfragment", key, p.Pos(bo.Pos()), "both operands are Item.String() of list elements")
 		}
 	}
-	l.Min(rule, n, 1)
+	if n == 0 {
+		l.Fail(rule, "Subtitles.Unfragment", rule+"|Subtitles.Unfragment|compare|absent", p.Pos(fn.Pos()), "Subtitles.Unfragment no longer decides sameness by an equality of two Item.String() results: the text identity of the property is the rendered string (runs of a line concatenated, lines joined); any finer comparison (run by run, line by line) leaves cues that read the same but are cut differently unmerged")
+	}
 	// the text function reads every run's text
 	read := fieldsRead(p, []*ssa.Function{str})
 	for _, f := range []string{"Item.Lines", "Line.Items", "LineItem.Text"} {
@@ -1061,18 +1063,45 @@ func ruleComplementaryExit(p *Prog, l *Ledger, tier string) {
 		// relation known on the path to the merge
 		merge := map[byte]bool{'<': true, '=': true, '>': true}
 		pair := ""
+		cmpOf := map[ssa.Value]cmp{}
 		for _, c := range cmps {
-			for si, s := range c.iff.Block().Succs {
-				if s.Dominates(d.st.Block()) && len(s.Preds) == 1 {
-					rs := relSet(c.op, c.swapped, si == 0)
-					for k := range merge {
-						if !rs[k] {
-							delete(merge, k)
-						}
-					}
-					pair = c.pair
+			cmpOf[c.iff.Cond] = c
+		}
+		// comparisons that sit under a short-circuit phi are not If conditions themselves
+		for _, bb := range fn.Blocks {
+			for _, ins := range bb.Instrs {
+				bo, ok := ins.(*ssa.BinOp)
+				if !ok {
+					continue
+				}
+				if _, done := cmpOf[bo]; done {
+					continue
+				}
+				_, fx, bx := loadedField(bo.X)
+				_, fy, by := loadedField(bo.Y)
+				if bx == nil || by == nil {
+					continue
+				}
+				switch {
+				case fx == "EndAt" && fy == "StartAt":
+					cmpOf[bo] = cmp{nil, bo.Op, false, a.key(bx) + "|" + a.key(by)}
+				case fx == "StartAt" && fy == "EndAt":
+					cmpOf[bo] = cmp{nil, bo.Op, true, a.key(by) + "|" + a.key(bx)}
 				}
 			}
+		}
+		for _, dc := range dominatingConds(d.st.Block()) {
+			c, ok := cmpOf[dc.cond]
+			if !ok {
+				continue
+			}
+			rs := relSet(c.op, c.swapped, dc.taken)
+			for k := range merge {
+				if !rs[k] {
+					delete(merge, k)
+				}
+			}
+			pair = c.pair
 		}
 		if pair == "" {
 			l.Undecide(rule, "Subtitles.Unfragment", key, pos, "the merge is not guarded by a comparison of EndAt with StartAt")
